@@ -149,7 +149,7 @@ func ruleSignedMod(w *World, r *RuleResult) {
 		}
 		d.add(false, key, pos, "", "field "+f+" is built from "+x.Show()+", which is not a normalised value")
 	}
-	for _, fn := range libFuncs(w) {
+	for _, fn := range libRoots(w) {
 		if simFns[fn] || fn.Signature.Recv() != nil && strings.Contains(typeName(fn.Signature.Recv().Type()), "reportSim") {
 			continue
 		}
@@ -519,7 +519,7 @@ func retKey(fn *ssa.Function, e *Event) string {
 func ruleErrProp(w *World, r *RuleResult) {
 	d := newDedup(r)
 	c := newSimCtx(w)
-	for _, fn := range libFuncs(w) {
+	for _, fn := range libRoots(w) {
 		// simulator's zombie-reap Pop handling is checked by PAIR.alive; skip nothing else
 		paths, err := w.Paths(fn)
 		if err != nil {
@@ -861,7 +861,7 @@ func ruleCycleChk(w *World, r *RuleResult) {
 	}
 	var sites []*site
 	bySite := map[string]*site{}
-	for _, fn := range libFuncs(w) {
+	for _, fn := range libRoots(w) {
 		if !danger[fn] {
 			continue
 		}
